@@ -486,6 +486,8 @@ def eval_op(line, extra=None):
             return errstr(e)
         outs = []
         for n in tok[3].split(","):
+            if n.startswith("x:"):           # a name given as hex-encoded UTF-8 (non-ASCII, format characters, blanks)
+                n = bytes.fromhex(n[2:]).decode("utf-8")
             try:
                 setattr(m, n, 0)
                 outs.append("set")
